@@ -78,8 +78,8 @@ func hexI8(b []int8) string {
 }
 
 func capture(r *Record, msg *tars.Message) {
-	if r == nil {
-		return
+	if r == nil || r.Big != nil {
+		return // large phase: buffers of up to 1 MiB are not handed to the schema model
 	}
 	r.mu.Lock()
 	r.ReqSBuf = hexI8(msg.Req.SBuffer)
@@ -262,7 +262,7 @@ func ChildMain() {
 	var replay *Case
 	if f := os.Getenv("VERIF_E2E_REPLAY"); f != "" {
 		var c Case
-		if err := common.ReadReplay(f, &c); err == nil && c.Scenario != nil {
+		if err := common.ReadReplay(f, &c); err == nil && (c.Scenario != nil || c.Large != nil) {
 			replay = &c
 		}
 	}
@@ -347,6 +347,29 @@ func ChildMain() {
 	newCtx := func() context.Context { return current.ContextWithClientCurrent(context.Background()) }
 	var recs []*Record
 	var scens []scenRun
+	if replay != nil && replay.Large != nil {
+		// replay of a large phase: same values; repeated until the violation shows (interleaving)
+		for i := 0; i < 6; i++ {
+			rs := RunLarge(replay.Large)
+			recs = append(recs, rs...)
+			bad := false
+			for _, r := range rs {
+				if len(Judge(r)) > 0 {
+					bad = true
+				}
+			}
+			if bad {
+				break
+			}
+		}
+		time.Sleep(300 * time.Millisecond)
+		serverGone()
+		judgeAll(o, res, fcfg, pool, recs, scens, taps)
+		if err := res.Write(o.Out); err != nil {
+			panic(err)
+		}
+		os.Exit(0)
+	}
 	if replay != nil {
 		// replay of one worker-pool scenario: exactly its calls
 		for _, pc := range replay.Scenario.Calls {
@@ -422,6 +445,20 @@ func ChildMain() {
 		}(seed)
 	}
 	wg.Wait()
+	// large phase: concurrent callers on one connection with requests/responses of 63 KiB - 1 MiB
+	if len(BigFuncNames) > 0 && os.Getenv("VERIF_E2E_LARGE") != "0" {
+		lp := &LargePhase{Seed: smallSeed(rng), Callers: 12, Calls: 24, Huge: 60}
+		if o.Thorough() {
+			lp.Callers, lp.Calls, lp.Huge = 24, 40, 25
+		}
+		if pool > 0 {
+			lp.Callers, lp.Calls = 8, 12
+		}
+		if s := os.Getenv("VERIF_E2E_LARGE"); s != "" { // experiments: callers,calls,huge
+			fmt.Sscanf(s, "%d,%d,%d", &lp.Callers, &lp.Calls, &lp.Huge)
+		}
+		recs = append(recs, RunLarge(lp)...)
+	}
 	time.Sleep(300 * time.Millisecond) // late duplicate deliveries of one-way calls and late reply frames would show up here
 	serverGone()
 	judgeAll(o, res, fcfg, pool, recs, scens, taps)
@@ -463,6 +500,10 @@ type Case struct {
 	Pool     int       `json:"pool,omitempty"`
 	Role     string    `json:"role,omitempty"`
 	Scenario *Scenario `json:"scenario,omitempty"`
+	// large phase (big.go): the whole phase is re-run on replay (the values follow from the seed;
+	// the interleaving of the callers does not, so a replay repeats the phase a few times)
+	Large *LargePhase `json:"large,omitempty"`
+	Big   *BigSpec    `json:"big,omitempty"`
 	GenSeed  int64     `json:"gen_seed,omitempty"`
 	GenTier  string    `json:"gen_tier,omitempty"`
 }
@@ -474,6 +515,9 @@ func judgeAll(o *common.Opts, res *common.Result, fcfg FilterCfg, pool int, recs
 		c := Case{Filters: fcfg.String(), Fn: r.Fn, Mode: r.Mode, Seed: r.Seed, GenSeed: genSeed, GenTier: genTier, Pool: pool}
 		if r.Scn != nil {
 			c.Role, c.Scenario = r.Role, r.Scn
+		}
+		if r.Big != nil {
+			c.Large, c.Big = r.Phase, r.Big
 		}
 		return c
 	}
@@ -508,7 +552,9 @@ func judgeAll(o *common.Opts, res *common.Result, fcfg FilterCfg, pool int, recs
 		if errk == "" {
 			errk = "ok"
 		}
-		if r.Role != "" {
+		if r.Big != nil {
+			res.Count(fmt.Sprintf("%s/pool%d/large/%s/%s/%d", fcfg, pool, r.Fn, r.Mode, r.Seed), bigClass(r), true)
+		} else if r.Role != "" {
 			res.Count(fmt.Sprintf("%s/pool%d/%s/%s/%d", fcfg, pool, r.Fn, r.Mode, r.Seed), poolClass(r), true)
 		} else {
 			res.Count(fmt.Sprintf("%s/pool%d/%s/%s/%d", fcfg, pool, r.Fn, r.Mode, r.Seed), "call:"+r.Mode+":"+errk, true)
